@@ -97,7 +97,7 @@ PROPS = {
     "C18": dict(
         kind="ext", pkg="./c18", level="exploration", engine="valgen",
         technique="property-based aliasing check: generated values of every core type pushed through each hand-over point, reflect walker scribbles over every reachable reference, later reads compared with a pristine snapshot, address sets of two holders must be disjoint",
-        level_text="For dutydb, parsigdb, aggsigdb (both), sigagg: store -> mutate input -> read; read -> mutate result -> read again; two readers / two subscribers -> disjoint reachable addresses, "
+        level_text="For dutydb, parsigdb, aggsigdb (both), sigagg, and the subscriber fan-out of parsigex (peer message over the in-memory libp2p stand-in) and of the validator API component: store -> mutate input -> read; read -> mutate result -> read again; two readers / two subscribers -> disjoint reachable addresses, "
                    "for generated values of every core data type and fork version.",
         level_note="Single-threaded orders (races are for the thorough -race tier); unexported fields and time.Time are treated as unreachable/immutable; fetcher / scheduler / validatorapi fan-out are not yet wired.",
         runs={
